@@ -280,12 +280,15 @@ InBufOK(T, blen, id) ==
          IF T[id].root THEN T[id].len <= blen[id]
          ELSE T[id].start + T[id].len <= blen[RootOf(T, id)]
 
+\* "spans" is read on the interval for every child that is a decoded value of the same buffer, empty ones included (an empty
+\* struct, array or zero-length field created at a position outside its siblings still belongs to its parent's range);
+\* synthetic values have no position of their own and are not counted (value.go postProcess does the same).
 \* A nested root's Range.Start is "position in the parent" for format roots and "first child in its own buffer" for
 \* *RootBitBufFn roots (two conventions in the code); the property does not choose, so either reading may span.
 SpansFrom(T, id, s0) ==
       \A i \in DOMAIN T[id].kids :
          LET c == T[id].kids[i] IN
-         (~T[c].root /\ T[c].len > 0) => (s0 <= T[c].start /\ T[c].start + T[c].len <= s0 + T[id].len)
+         (~T[c].root /\ T[c].kind # "synth") => (s0 <= T[c].start /\ T[c].start + T[c].len <= s0 + T[id].len)
 SpansOK(T, id) ==
     Compound(T[id].kind) =>
       IF T[id].root THEN SpansFrom(T, id, 0) \/ SpansFrom(T, id, T[id].start) ELSE SpansFrom(T, id, T[id].start)
